@@ -530,7 +530,11 @@ func (g *gen) program(p profile) []Op {
 			}
 			continue
 		}
-		ops = append(ops, Op{K: "stats"})
+		st := Op{K: "stats"}
+		if r.p(0.7) {
+			g.rangeOf(&st)
+		}
+		ops = append(ops, st)
 	}
 	return ops
 }
